@@ -486,6 +486,41 @@ def shard_badkeys(rec):
         rec.violation('badkey:accepted', '2-byte key accepted by an 8-bit map', 'shard_badkeys', {})
     except Exception:
         pass
+    # key FORMS that are longer than the key: a bit string of more than `width` characters, a byte string of more whole bytes than the width
+    # needs - also when the extra leading bits are zero (the key would be stored under the shorter key: two different keys, one entry)
+    for width in (1, 3, 4, 8, 12, 16, 256):
+        forms = [('bit string', '0' + format(1, f'0{width}b')), ('bit string', '000' + '1' * width), ('bit string', '0' * (width + 1)),
+                 ('bytes', bytes(1) + (1).to_bytes((width + 7) // 8, 'big')), ('bytes', bytes(2) + b'\xff' * ((width + 7) // 8)), ('bytes', bytes((width + 7) // 8 + 1))]
+        for fname, key in forms:
+            for prefill in ([], [1]):
+                rec.case('badkey-form')
+                rec.state(('badform', width, fname, repr(key)[:40], tuple(prefill)))
+                rec.nontriv(('badform', width, fname, repr(key)[:40]))
+                hm = HashMap(width).with_uint_values(8)
+                for k in prefill:
+                    hm.set_int_key(k, 7)
+                before = dict(hm.map)
+                rec.trans()
+                try:
+                    hm.set(key, 1)
+                except Exception:
+                    rec.outcome('refused')
+                    if dict(hm.map) != before:
+                        rec.violation('badkey:form-partial', f'width {width}: the refused {fname} key {key!r} changed the map', 'shard_badkeys', {})
+                    continue
+                rec.violation('badkey:form-accepted', f'width {width}: the {fname} key {key!r} ({len(key) * (8 if fname == "bytes" else 1)} bits) was accepted by a {width}-bit map; '
+                              f'the map now holds keys {sorted(hm.map)[:4]}', 'shard_badkeys', {})
+                rec.outcome('ACCEPTED')
+        # forms that DO fit stay accepted: exactly `width` characters, and the shortest byte string that holds `width` bits
+        hm = HashMap(width).with_uint_values(8)
+        try:
+            hm.set(format((1 << width) - 1, f'0{width}b'), 1)
+            hm.set((0).to_bytes((width + 7) // 8, 'big'), 2)
+            if sorted(hm.map) != sorted({(1 << width) - 1, 0}):
+                rec.violation('badkey:form-fit', f'width {width}: fitting bit-string / bytes keys give keys {sorted(hm.map)}', 'shard_badkeys', {})
+        except Exception as e:
+            rec.violation('badkey:form-fit', f'width {width}: a bit string of exactly {width} characters / the shortest byte string was refused: {exc_name(e)}: {e}', 'shard_badkeys', {})
+    rec.covered('badkey:forms')
     # the other ways keys get into a map: the map_ constructor argument and the public .map attribute. Whatever the route, a key that does
     # not fit is refused at the latest when the map is serialised - never written under another key, never a malformed cell
     for width in (1, 3, 8, 64):
